@@ -38,7 +38,7 @@ def stv_replay(P, picks_or_first):
 
 class C12(Prop):
     layouts = True
-    translators = ['copeland', 'stv', 'validators']   # Copeland.score regenerated from deterministic_tournament.py on every run
+    translators = ['copeland', 'stv', 'validators', 'wrappers']   # Copeland.score regenerated from deterministic_tournament.py on every run
     pid = "C12"
     sources = ["socialchoicekit/deterministic_tournament.py", "socialchoicekit/deterministic_multiround.py", "socialchoicekit/utils.py"]
     groups = {
